@@ -2,6 +2,7 @@
 # replay.sh <file.ops>: re-executes a replay against the real library (built from /repo) and
 # prints the model comparison and the monitor verdicts.
 set -e
+if grep -q '^# crash-experiment' "$1"; then cd /verif/harness && cargo build --offline >/dev/null 2>&1; exec python3 /verif/tools/crash.py --replay "$1"; fi
 cd /verif/harness && cargo build --offline >/dev/null 2>&1
 grep -v '^#' "$1" > /verif/work/replay.$$.ops
 /verif/harness/target/debug/drive --replay /verif/work/replay.$$.ops --out /verif/work/replay.$$.trace 2>/dev/null
